@@ -17,6 +17,10 @@ Coverage of the property text:
   launch, each declared register holds the value the accfg level says) from injectivity;
   `accelerators_separated` discharges its hypothesis for every accelerator and configuration.
 * "no state-tracking values survive": `lower_no_state`.
+* data values carried by control flow next to the state (`scf.for` iter_args/results, `scf.if` results) are
+  part of the programs: `lower_refines` covers their binding (results are bound from the yields position by
+  position, the surviving results keep their order); `lower_result_order_matters` shows a reversed
+  re-binding is observable.
 * NOT proved here: the RoCC clause (every emitted instruction carries the values in effect for both source
   fields).  `rocc.create_pairs` retraces through `infer_state_of`, which belongs to the accfg state-inference
   model (C07); the RoCC lowering is modelled executably (`roccSetup/roccLaunch`, inferred state passed in
@@ -126,6 +130,19 @@ theorem rocc_stateless_partial_setup_carries_default_fails :
     RVal.default0 ≠ RVal.var 1 := by
   decide
 
+/-- The order of the surviving results is observable: re-binding the two data results of a state-carrying
+loop in reverse order (what `new_results.pop()` instead of `.pop(0)` would do in `DeleteAllStates`) is NOT a
+refinement.  Concrete data semantics: environments `Var → Int`, zero trips; result 10 must receive init 0. -/
+theorem lower_result_order_matters :
+    let sem : Sem (Var → Int) :=
+      { val := fun v s => s v, set := fun v x s => fun w => if w = v then x else s w, opSem := fun _ s => s,
+        cond := fun _ _ => true, trips := fun _ _ => 0, iter := fun _ _ s => s }
+    let s0 : Var → Int := fun v => if v = 0 then 7 else if v = 1 then 9 else 0
+    (execS sem (.forS 0 [.data 10 11 0 12, .data 13 14 1 15, .state] .nil) s0).1 10 = 7 ∧
+    (execCS sem (.forS 0 [.data 10 11 0 12, .data 13 14 1 15] .nil) s0).1 10 = 7 ∧
+    (execCS sem (.forS 0 [.data 13 11 0 12, .data 10 14 1 15] .nil) s0).1 10 = 9 := by
+  decide
+
 /-! ## non-vacuity -/
 
 /-- a two-streamer configuration with options: the alu map is what `generate_acc_op` prints -/
@@ -138,10 +155,10 @@ without state values) -/
 example :
     lowerBlock [declOf "snax_hwpe_mult" regMapHwpe .poll1]
       (.cons (.setup "snax_hwpe_mult" [("A", 0, false), ("B", 1, true)])
-        (.cons (.forS 0 3 (.cons (.setup "snax_hwpe_mult" [("O", 2, false)])
+        (.cons (.forS 0 [.data 10 11 0 12, .state, .data 13 14 1 15] (.cons (.setup "snax_hwpe_mult" [("O", 2, false)])
           (.cons (.launch "snax_hwpe_mult" [("launch", 3)]) (.cons (.await "snax_hwpe_mult") (.cons (.op 7 1) .nil)))))
           .nil))
-    = .ok (.cons (.csrw 0x3D0 0 false false) (.cons (.csrw 0x3D1 1 true false) (.cons (.forS 0 0
+    = .ok (.cons (.csrw 0x3D0 0 false false) (.cons (.csrw 0x3D1 1 true false) (.cons (.forS 0 [.data 10 11 0 12, .data 13 14 1 15]
           (.cons (.csrw 0x3D3 2 false false) (.cons (.csrw 0x3C0 3 false true) (.cons (.poll 0x3C3) (.cons .clear
             (.cons .nop (.cons .nop (.cons .nop (.cons .nop (.cons (.op 7 0) .nil))))))))) ) .nil))) := by
   rfl
